@@ -254,7 +254,17 @@ def evaluate(rep, cases):
 # The same logical stream in the legal spellings of a YAML document boundary.  bkl's reader must see
 # the documents an independent YAML parser sees (C04: the result depends on the content only).
 
+ANCHOR_STREAMS = [
+    "a: &x 1\nb: *x\n---\na: &x 2\nb: *x\n",
+    "d: &d {port: 8080, tls: false}\nmain: *d\n---\nd: &d {port: 9090, tls: true}\nmain: *d\nadmin:\n  <<: *d\n  port: 1\n",
+    "l: &l [1, 2]\nm: *l\n---\nl: &l [3]\nm: *l\n--- # third\nl: &l []\nm: *l\n",
+]
+
+
 def ystream_case(rng):
+    if rng.random() < 0.15:
+        t = rng.choice(ANCHOR_STREAMS)
+        return {"format": "yaml", "text": t, "docs": [x for x in formats.yaml_load_all(t) if x is not None]}
     import props.c04 as c04
     docs = []
     for _ in range(rng.randint(1, 3)):
